@@ -283,7 +283,7 @@ fn most_abundant_length<IntT: for<'a> UInt<'a>>(vec_variants: &[Vec<IntT>]) -> O
     // find the length with the maximum count
     length_counts
         .into_iter()
-        .max_by_key(|&(_, count)| count)
+        .max_by_key(|&(length, count)| (count, std::cmp::Reverse(length)))
         .map(|(length, _)| length)
 }
 
